@@ -85,12 +85,28 @@ def grammar_files():
         "optim": v + "/corpus/optim.pest",
         "tags": v + "/corpus/tags.pest",
         "ring": v + "/corpus/ring.pest",
+        "uprop": v + "/corpus/uprop.pest",
     }
     bad = {n: v + "/corpus/bad/%s.pest" % n for n in ("leftrec", "undefined", "nonprogress", "syntaxerr", "duplicate")}
     for p in list(good.values()) + list(bad.values()):
         if not os.path.exists(p):
             raise C.HarnessError("corpus grammar missing: " + p)
     return good, bad
+
+
+def split_grammar_text(text, n):
+    """Split a grammar text into n pieces at lines that start a rule (concatenated they are the original text)."""
+    lines = text.split("\n")
+    starts = [i for i, l in enumerate(lines) if i > 0 and l[:1].isalpha() and "=" in l]
+    if n <= 1 or not starts:
+        return [text]
+    cuts = sorted({starts[min(len(starts) - 1, k * len(starts) // n)] for k in range(1, n)})
+    out, prev = [], 0
+    for c in cuts:
+        out.append("\n".join(lines[prev:c]) + "\n")
+        prev = c
+    out.append("\n".join(lines[prev:]))
+    return out
 
 
 def prepare_roots():
@@ -125,6 +141,15 @@ def prepare_roots():
                 os.chmod(target, 0o444)
             elif k == 2:
                 os.utime(target, (2_000_000_000, 2_000_000_000))
+            # the same grammar split over two and three files (several #[grammar = "..."] attributes on one derive)
+            text = data.decode("utf-8")
+            for n in (2, 3):
+                parts = split_grammar_text(text, n)
+                parts += [""] * (n - len(parts))
+                for j, part in enumerate(parts):
+                    pp = os.path.join(root, "grammars", "%s.%d-%d.pest" % (name, n, j))
+                    if not os.path.exists(pp) or open(pp, encoding="utf-8").read() != part:
+                        open(pp, "w", encoding="utf-8").write(part)
         roots.append(root)
     texts = {name: open(path, encoding="utf-8").read() for name, path in list(good.items()) + list(bad.items())}
     return roots, texts, sorted(good), sorted(bad)
@@ -158,7 +183,7 @@ STRUCT_DECLS = ["Parser", "Parser", "P", "MyGrammar_2", "r#type", "Parser<'a>", 
 def shape(rng, source):
     """How the derive is written down, which must not matter beyond what it says: the struct's name and generics, the grammar
     handed over in one or several inline attributes, option attributes before or after the grammar."""
-    return {"struct_decl": rng.pick(STRUCT_DECLS), "pieces": (1 if source == "file" or rng.chance(2, 3) else 2 + rng.below(2)), "options_last": rng.chance(2, 3)}
+    return {"struct_decl": rng.pick(STRUCT_DECLS), "pieces": (1 if rng.chance(2, 3) else 2 + rng.below(2)), "options_last": rng.chance(2, 3)}
 
 
 def make_step(rng, goods, bads, texts, root_index, option_sets=None):
@@ -229,7 +254,6 @@ def gen_run(seed, goods, bads, texts, option_sets=None):
                     st["source"] = "inline" if st["source"] == "file" else "file"
                     st["text"] = texts[st["name"]] if st["source"] == "inline" else ""
                     st["include_grammar"] = False
-                    st["pieces"] = 1
             steps.append(st)
         else:
             steps.append(make_step(rng, goods, bads, texts, env["root"], option_sets))
